@@ -154,6 +154,9 @@ func (m *monitors) checkEntries(r *run, c *call, racy bool) {
 			// What holds on every schedule: the handler reports SUBSCRIBED at most once, a request that
 			// did not get in is told so, and (checked elsewhere) one datatype per key, convergence.
 			r.probe("entry-raced")
+			if state == model.StateOfDatatype_SUBSCRIBED && subscribedNow == 0 && !e.d.noState {
+				r.fail("entry", "C13.subscribed-once", "reported-0", "%s: %s became SUBSCRIBED but the state-change handler did not report the transition (errors reported: %v)", e.a.name, e.d.key, newErrs)
+			}
 			if subscribedNow > 1 {
 				r.fail("entry", "C13.subscribed-once", "reported-2", "%s: the state-change handler of %s reported the transition to SUBSCRIBED %d times", e.a.name, e.d.key, subscribedNow)
 			}
